@@ -2,6 +2,8 @@
 
 package hybrid
 
+import "sync"
+
 // Export shims for the C14 verification harness (compiled only into verif_c14).
 
 // VerifCategory returns getCategory(key) as an int (0 runtime, 1 persistent, 2 shared, 3 shared+persistent).
@@ -15,4 +17,19 @@ func VerifCacheForKeyIsShared(h *Storage, key string) bool {
 // VerifCategoryConstants returns the numeric values of the four DataCategory constants.
 func VerifCategoryConstants() [4]int {
 	return [4]int{int(DataCategoryRuntime), int(DataCategoryPersistent), int(DataCategoryShared), int(DataCategorySharedPersistent)}
+}
+
+// VerifKeyLockHeld reports whether the per-key lock of the repaired code (method keyLock) is currently held for key.
+// supported is false on a tree without key locks.  Only called while every caller is parked, blocked or finished.
+func VerifKeyLockHeld(h *Storage, key string) (held bool, supported bool) {
+	l, ok := any(h).(interface{ keyLock(string) *sync.Mutex })
+	if !ok {
+		return false, false
+	}
+	mu := l.keyLock(key)
+	if mu.TryLock() {
+		mu.Unlock()
+		return false, true
+	}
+	return true, true
 }
